@@ -8,6 +8,7 @@ import (
 	"path/filepath"
 	"strings"
 	"sync"
+	"syscall"
 	"time"
 )
 
@@ -103,7 +104,34 @@ func runC12(em *vEmitter, r *vRng) {
 		if burst > 0 {
 			n = 14
 		}
+		emitSeq := func(class string) {
+			m := "ULocal"
+			if mode == "" {
+				m = "UOff"
+			}
+			em.emit(vCase{Prop: "C12", Kind: "upgrade-seq", Class: class, Nontrivial: true,
+				Coq:   fmt.Sprintf("UpgSeq %s %s %s %s %s", ms.cfgTerm(), ms.tablesTerm(), m, initDir, cList(steps)),
+				Human: map[string]interface{}{"default": def, "mode": mode, "logins": human}})
+		}
+		reloadAt := -1
+		if mode == "local" && si%4 == 1 && burst == 0 {
+			reloadAt = n / 2
+		}
 		for k := 0; k < n; k++ {
+			if k == reloadAt {
+				// the operator changes nothing but the default parameter set and reloads: from here on
+				// "upgradeable" and the target of upgrades follow the new default
+				emitSeq("sequence/local/before-reload")
+				def = def%3 + 1
+				ms.def = def
+				ms.writeCfg()
+				syscall.Kill(os.Getpid(), syscall.SIGHUP)
+				time.Sleep(80 * time.Millisecond)
+				api.List()
+				initDir = ms.snapshotTerm()
+				last = initDir
+				steps, human = nil, nil
+			}
 			u := seqUsers[r.intn(len(seqUsers))]
 			if burst > 0 && k < len(seqUsers)-len(users) {
 				u = seqUsers[k]
@@ -153,13 +181,11 @@ func runC12(em *vEmitter, r *vRng) {
 			human = append(human, fmt.Sprintf("auth(%s,%q) ok=%v changed=%v", u, p, ok, snapTerm != "SnapSame"))
 			vStats[fmt.Sprintf("login/%s/ok=%v/rewritten=%v", map[string]string{"": "off", "local": "local"}[mode], ok, snapTerm != "SnapSame")]++
 		}
-		m := "ULocal"
-		if mode == "" {
-			m = "UOff"
+		cls := "sequence/" + map[string]string{"": "off", "local": "local"}[mode]
+		if reloadAt >= 0 {
+			cls += "/after-reload"
 		}
-		em.emit(vCase{Prop: "C12", Kind: "upgrade-seq", Class: "sequence/" + map[string]string{"": "off", "local": "local"}[mode], Nontrivial: true,
-			Coq:   fmt.Sprintf("UpgSeq %s %s %s %s %s", ms.cfgTerm(), ms.tablesTerm(), m, initDir, cList(steps)),
-			Human: map[string]interface{}{"default": def, "mode": mode, "logins": human}})
+		emitSeq(cls)
 		ms.cleanup()
 	}
 	// remote mode: the slave's store is never touched, the master's record is upgraded
